@@ -170,6 +170,17 @@ def gen_request(rng, names, odd):
     return [[k, rng.choice(qs)] for k in keys]
 
 
+def competing_request(rng, vec):
+    """a request that is refused HALF-WAY on the vector: the `any` entry (served first) drains the units that the entry
+    for a specific unit then needs — the rollback path of allocate_multiple"""
+    spec = [(k, q) for k, q in vec if k[1] is not None and q > 0]
+    if not spec:
+        return None
+    (n, i), _q = rng.choice(spec)
+    total = sum(q for k, q in vec if k[0] == n)
+    return [[[n, None], max(1, total - rng.choice([0, 0, 1]))], [[n, i], 1]]
+
+
 def gen_case(rng, maxcmds, kinds=("res", "worker", "pool"), odd=None):
     if odd is None:
         odd = rng.random() < 0.35       # inputs outside the hypotheses of the theorems (correspondence only)
@@ -196,6 +207,12 @@ def gen_case(rng, maxcmds, kinds=("res", "worker", "pool"), odd=None):
                 ws.append([nw, gen_vector(rng, names, odd)])
                 nw += 1
             objs.append(["pool", len(objs), ws])
+    # a strategy whose request is refused half-way on one of the vectors (rollback with and without earlier holdings)
+    vecs = [o[1] if o[0] == "res" else o[2] if o[0] == "worker" else o[2][0][1] for o in objs]
+    comp_req = competing_request(rng, rng.choice(vecs)) if rng.random() < 0.6 else None
+    if comp_req is not None:
+        strats.append({"id": len(strats), "batch": False, "req": comp_req, "bsize": 1, "runtime": rng.choice([1, 2, 5])})
+        sids.append(strats[-1]["id"])
     keys = []
     for n in names:
         keys += [[n, None], [n, 0], [n, 1], [n, 2]]
@@ -237,7 +254,13 @@ def gen_case(rng, maxcmds, kinds=("res", "worker", "pool"), odd=None):
                 held[i].add(tuple(comp))
             elif r < 0.62:
                 comp = list(rng.choice(comps))
-                op = ["allocm", gen_request(rng, names, odd), comp]
+                req = gen_request(rng, names, odd)
+                if comp_req is not None and rng.random() < 0.35:
+                    # refused half-way, preferably for a computation that already holds something
+                    req = comp_req
+                    if held[i] and rng.random() < 0.7:
+                        comp = list(rng.choice(sorted(held[i])))
+                op = ["allocm", req, comp]
                 held[i].add(tuple(comp))
             elif r < 0.95 or not odd:
                 comp = list(pick(comps, held[i], 0.85))
